@@ -85,7 +85,7 @@ def py_values(thorough):
     times = []
     for h in (0, 12, 23):
         for mi in (0, 59):
-            for s in (0, 59):
+            for s in (0, 10, 30, 59):
                 for us in (0, 5, 5000, 500000, 123000, 123456, 999999):
                     times.append((h, mi, s, us))
     if not thorough:
